@@ -15,32 +15,9 @@ theorem move_refines_spec [Add V] (inp : PathIn V) (start : Option Int) (o : Obj
     (hne : o.pos ≠ []) (hlen : o.ori.length = o.pos.length) (i : Nat) :
     (applyMove inp start o).pos[i]? = applyAt (fun d x => x + d) inp start o.pos i ∧
     (applyMove inp start o).ori[i]? =
-      baseAt o.ori (window inp.isScalar o.pos.length inp.lenip start) i := by
-  have hone : o.ori ≠ [] := by
-    intro h; rw [h] at hlen; exact hne (List.length_eq_zero_iff.mp hlen.symm)
-  obtain ⟨hb, hs, hs0, hN, hfit⟩ :=
-    pathPaddingParam_spec inp.isScalar o.pos.length inp.lenip start inp.lenip_of_scalar
-  simp only [applyMove, pathPadding, applyAt, baseAt]
-  generalize (padOf (pathPaddingParam inp.isScalar (↑o.pos.length) (↑inp.lenip) start).fst).fst = pb at *
-  generalize (padOf (pathPaddingParam inp.isScalar (↑o.pos.length) (↑inp.lenip) start).fst).snd = pe at *
-  generalize (pathPaddingParam inp.isScalar (↑o.pos.length) (↑inp.lenip) start).snd.toNat = st at *
-  subst hb hs
-  constructor
-  · rw [getElem?_mapSlice, getElem?_edgePad _ _ _ hne]
-    simp only [length_edgePad _ _ _ hne]
-    have e1 : (window inp.isScalar o.pos.length inp.lenip start).b + o.pos.length + pe
-        = (window inp.isScalar o.pos.length inp.lenip start).newLen := by omega
-    rw [e1]
-    have e2 : (if inp.isScalar = true then (window inp.isScalar o.pos.length inp.lenip start).newLen
-        else (window inp.isScalar o.pos.length inp.lenip start).s0 + inp.lenip)
-        = (window inp.isScalar o.pos.length inp.lenip start).stop := by
-      simp only [window]
-    rw [e2]
-    rfl
-  · rw [getElem?_edgePad _ _ _ hone, hlen]
-    have e1 : (window inp.isScalar o.pos.length inp.lenip start).b + o.pos.length + pe
-        = (window inp.isScalar o.pos.length inp.lenip start).newLen := by omega
-    simp only [e1]
+      baseAt o.ori (window inp.isScalar o.pos.length inp.lenip start) i :=
+  applyMove_at inp start o hne hlen i
+
 /-- C09(b): `rotate` on a childless or top-level object — orientation `R_k * old`, position
 `R_k (p − a_k) + a_k` (unchanged when no anchor is given), with rotation and anchor inputs
 broadcast against each other, for every `start`, every input length and every anchor form. -/
